@@ -444,8 +444,11 @@ def main(argv):
             try:
                 with open(os.path.join(r["dir"], "cases.json")) as f:
                     cj = json.load(f)
-                for i in ids[:5]:
-                    cases[str(i)] = cj.get(str(i))
+                # shards written by data_cases.py key their cases "data:<n>" and print nested item indices too
+                prefix = "data:" if os.path.basename(r["shard"]).startswith("cases_data_") else ""
+                for i in ids:
+                    if prefix + str(i) in cj and len(cases) < 5:
+                        cases[prefix + str(i)] = cj[prefix + str(i)]
             except (OSError, ValueError):
                 pass
             # a family may tag cases with the properties they are relevant to
